@@ -74,6 +74,21 @@ def curated():
             return ST("C7_0", [F("f0", L(3))] + [F("f%d" % i, (ST("C7x", [F("p", L(1)), F("q", L(9))]) if i == 5 else L(1 + i % 9))) for i in range(1, 8)])
         return ST("C7_%d" % k, [F("f0", wide(k - 1))] + [F("f%d" % i, L(1 + (i + k) % 9)) for i in range(1, 8)])
     out.append(wide(20))
+    # 8. names that are longer in bytes than in characters (renames with non-ASCII text) on the longest path
+    out.append(ST("C8", [F("a", L(1)), F("gr", ST("C8g", [F("ma", ST("C8m", [F("la", L(6), rename="l\u00e4nge"), F("x", L(1))]), rename="ma\u00df"), F("y", L(3))]),
+                                         rename="Gr\u00f6\u00dfe"), F("zz", A(3, L(2)))]))
+    # 9-12. RangeInclusive (implements TreeKey + TreeSerialize only): as the root over an internal node, inside an array,
+    #       behind Option over a tuple, and inside a tuple next to other children
+    RI = lambda t: dict(k="rangeincl", t=t)
+    out.append(RI(A(4, L(6))))
+    out.append(A(2, RI(L(1))))
+    out.append(G("Option", RI(dict(k="tuple", ts=[L(1), A(3, L(9))]))))
+    out.append(dict(k="tuple", ts=[RI(L(6)), L(3), RI(A(2, L(2)))]))
+    # 13. 63 nested one-element arrays (one bit per level): max_bits is exactly the capacity of a Packed word
+    t63 = L(1)
+    for _ in range(63):
+        t63 = A(1, t63)
+    out.append(t63)
     res = []
     for t in out:
         res.append((t, [S.value(rng, t) for _ in range(2)]))
